@@ -16,7 +16,8 @@ SPEC = {
     "module": "C15.Property",
     "targets": ["C15/Property.vo"],
     "theorems": ["C15_replies_paired", "C15_change_sets_exact", "C15_nothing_before_first",
-                 "C15_other_steps_keep_history", "C15_nonvacuous"],
+                 "C15_other_steps_keep_history", "C15_model_satisfies_spec", "C15_each_reply_meets_oracle",
+                 "C15_oracle_nonvacuous", "C15_nonvacuous"],
     "streams": [dict(STREAM, name="srv15"),
                 {"name": "readers", "bin": "c15", "check_module": "C15.Spec", "fn": "check_rcase", "casetype": "rcase",
                  "env": {"C15_STREAM": "readers"},
